@@ -346,6 +346,31 @@ def receivedFrom (ftime now : Int) : Int :=
   let w := if ftime > now then now else ftime
   if w < now - 2592000 then now - 2592000 else w
 
+/-- cleanCache() (cache ageing; called by the code every 1000 cached files, by the harness
+    through a tag-guarded export). `names` = the names currently cached. An entry belongs to
+    an expired batch when its `time` equals the batch's load time (as in the code; the
+    harness gives distinct `now` values to operations that load batches). This operation is
+    modelled for the correspondence check only: it is not among the events the theorems
+    quantify over (C05's hypothesis `Remembered`). -/
+def cleanCacheEffects (s : State) (now : Int) (names : List Name) : List Prim :=
+  let expired := s.mem.cacheTimes.takeWhile (fun t => decide (now - t ≥ 3600))
+  let rest := s.mem.cacheTimes.drop expired.length
+  let considered := names.filterMap (fun n => match s.mem.cache n with
+    | some e => if e.state.num ≥ 3 ∧ ¬ (e.prev ≠ "" ∧ e.nextFinal = false) then some (n, e) else none
+    | none => none)
+  let isDel := fun (x : Name × Entry) =>
+    let age := match x.2.logged with | some l => now - l | none => now + 62135596800
+    if age > 86400 then
+      (if expired.isEmpty then true
+       else decide (x.2.state = .logged) && expired.any (fun t => t == x.2.time))
+    else false
+  let dels := considered.filter isDel
+  let kept := considered.filter (fun x => !isDel x)
+  let ct := kept.foldl (fun acc x => match x.2.logged with
+    | some l => if l < acc then l else acc
+    | none => -62135596800) now
+  [Prim.cacheTimesSet rest, Prim.cacheTimeSet (some ct)] ++ dels.map (fun x => Prim.cacheDel x.1)
+
 def inoOf (d : Disk) (n : Name) (ext : String) : Option Nat :=
   if ext = "part" then d.part n else if ext = "full" then d.full n
   else if ext = "wait" then d.wait n else none
